@@ -280,3 +280,24 @@ def op_int(body, op, depth=4):
             return None
         op = defs[0]["rv"]["op"]
     return None
+
+
+def logic_or_inlined(prog, fn, anchors):
+    """logic body of `fn`; when the anchor call sits in a private sync helper of the connection (e.g. the parse step moved into
+    `parse_received`), the body with such helpers spliced in (A12)"""
+    b = logic_body(prog, fn, anchors)
+    if b is not None:
+        return b
+    from .inline import inlined, same_impl_helpers
+    roots = body_by_name(prog, fn)
+    if len(roots) != 1:
+        return None
+    best = None
+    for fb in family(prog, roots[0]):
+        ib = inlined(prog, fb, same_impl_helpers(fb, module=True))
+        if ib.raw.get("inlined") and any(any(n in anchors for n in callee_names(t)) for bb, t in ib.calls()):
+            if best is None or len(ib.blocks) > len(best.blocks):
+                best = ib
+    return best
+
+
